@@ -37,7 +37,7 @@ RULE = ("(a) path pairs: exhaustive over a component alphabet (spaces, %, #, non
         "(b) link grammar: all strings up to length 4 (quick) / 5 (thorough) over {' ','#','a','-','%','/','é','\\n','\\t',':'} "
         "plus seeded longer ones; (c) split_links: all token sequences up to length 4 over a token alphabet with every "
         "Python white-space class; (d) loaders: every corpus model and seeded fragment layouts (1-4 nested cuts, fragment "
-        "depth 0-3, relocated main file, .airdfragment indirection, raw non-ASCII) x ordered element pairs (all pairs of a "
+        "depth 0-3, relocated main file, .airdfragment indirection, raw non-ASCII, equal file names in different directories, library files renamed to the project file's resource-relative name) x ordered element pairs (all pairs of a "
         "stratified sample covering every file and every (tag, id-attribute set) shape) x include_target_type in "
         "{None,True,False}; link lists of length 0-6 mixing forms. distinct = distinct (stream, layout, from, to / text); "
         "non-trivial = cross-file pair, or a text with a special character / white space / malformed part")
@@ -144,7 +144,7 @@ def gen_frag_path(rng, used: set[str]) -> str:
             return p
 
 
-def gen_layout_spec(rng, model: str, resources: dict, ncuts: int | None = None) -> dict:
+def gen_layout_spec(rng, model: str, resources: dict, ncuts: int | None = None, same_names: bool | None = None) -> dict:
     """a seeded fragment layout for a corpus model (cuts chosen among the candidates, nested allowed)"""
     src = data_dir() / model
     main, _ = fragmenter.find_main(src)
@@ -155,8 +155,30 @@ def gen_layout_spec(rng, model: str, resources: dict, ncuts: int | None = None) 
     used: set[str] = set()
     cuts = [[c[0], gen_frag_path(rng, used)] for c in chosen]
     main_rel = rng.choice([None, None, "sem/Main Model.capella", "ü/100% m.capella"])
-    return {"model": model, "resources": resources, "cuts": cuts, "main_rel": main_rel,
+    if len(cuts) >= 2 and rng.random() < 0.4:
+        # equal file names in different directories
+        base = cuts[0][1].rsplit("/", 1)[-1]
+        cand = rng.choice(DIRS) + "/" + rng.choice(DIRS) + "/" + base
+        if cand not in used:
+            cuts[1][1] = cand
+    spec = {"model": model, "resources": resources, "cuts": cuts, "main_rel": main_rel,
             "airdfragments": rng.random() < 0.4, "raw_nonascii": rng.random() < 0.25}
+    if resources and (same_names if same_names is not None else rng.random() < 0.5):
+        spec["resource_rename"] = same_name_rename(model, resources, main_rel)
+    return spec
+
+
+def same_name_rename(model: str, resources: dict, main_rel: str | None) -> dict:
+    """give every library's semantic file the resource-relative name the project's own semantic file has:
+    the tree keys then differ in the resource part only"""
+    src = data_dir() / model
+    main = main_rel or fragmenter.find_main(src)[0]
+    out = {}
+    for name, d in resources.items():
+        sem = sorted(p.name for p in (data_dir() / d).iterdir() if p.suffix in SEMANTIC[:1] + (".melodymodeller",))
+        if len(sem) == 1 and sem[0] != main:
+            out[name] = {sem[0]: main}
+    return out
 
 
 def build_layout(spec: dict, dst: pathlib.Path) -> fragmenter.Layout:
@@ -164,7 +186,8 @@ def build_layout(spec: dict, dst: pathlib.Path) -> fragmenter.Layout:
     res = {k: data_dir() / v for k, v in spec.get("resources", {}).items()}
     return fragmenter.fragment(src, dst, [tuple(c) for c in spec["cuts"]], main_rel=spec.get("main_rel"),
                                airdfragments=spec.get("airdfragments", False),
-                               raw_nonascii=spec.get("raw_nonascii", False), resources=res)
+                               raw_nonascii=spec.get("raw_nonascii", False), resources=res,
+                               resource_rename=spec.get("resource_rename"))
 
 
 def load(lay: fragmenter.Layout):
@@ -404,7 +427,13 @@ def run(ctx: Ctx) -> Outcome:
                         ("parser/TestItems.aird", {}), ("filtering/Filtered Project.aird", {})]
     for i in range(ctx.pick(8, 40)):
         model, res = frag_models[i % len(frag_models)]
-        specs.append(gen_layout_spec(ctx.rng, model, res))
+        specs.append(gen_layout_spec(ctx.rng, model, res, same_names=(i // len(frag_models)) % 2 == 0 if res else None))
+    # resources whose files carry the same resource-relative name as the project's file (no cuts / relocated)
+    for model, res in frag_models:
+        if res:
+            for main_rel in (None, "sem/Main Model.capella"):
+                specs.append({"model": model, "resources": res, "cuts": [], "main_rel": main_rel, "airdfragments": False,
+                              "raw_nonascii": False, "resource_rename": same_name_rename(model, res, main_rel)})
     out.extra["layouts"] = {"corpus": len(corpus), "fragmented": len(specs) - len(corpus)}
 
     layout_stats = {"files": 0, "pairs_cross": 0, "pairs_same": 0, "dups": 0, "unaddressable_afm": 0,
